@@ -44,13 +44,13 @@ func allocBound(n int) uint64 { return 64*uint64(n) + 64<<10 }
 // Finding ids (known_findings.json / kf_draft.json).  A generator / screen asks
 // pbt.Open(id) and steers away from the class while the finding is listed open.
 const (
-	fPercolator    = "C16-percolator-len"   // DecodeLock/DecodeWrite: pos+int(len) overflow -> slice panic
-	fRaftLen       = "C16-raftlog-len"      // decodeRaftEntries/HardState/Snapshot: idx+int(size) overflow -> slice panic
-	fManifestVar   = "C16-manifest-varint"  // decodeEdit: Uvarint n<0 added to pos / readBytes int(length) overflow -> slice panic
-	fManifestPeers = "C16-manifest-peers"   // decodeEdit: make([]PeerMeta,0,peersCount) from the wire
-	fManifestFrame = "C16-manifest-frame"   // readEdit: make([]byte,length) from the 4-byte frame header before reading
-	fEntryAlloc    = "C16-entry-alloc"      // DecodeEntryFrom: make([]byte,keyLen/valueLen) from the header before reading
-	fValueStruct   = "C16-valuestruct"      // ValueStruct.DecodeValue: index panic on empty buffer / overflowing varint
+	fPercolator    = "C16-percolator-len"  // DecodeLock/DecodeWrite: pos+int(len) overflow -> slice panic
+	fRaftLen       = "C16-raftlog-len"     // decodeRaftEntries/HardState/Snapshot: idx+int(size) overflow -> slice panic
+	fManifestVar   = "C16-manifest-varint" // decodeEdit: Uvarint n<0 added to pos / readBytes int(length) overflow -> slice panic
+	fManifestPeers = "C16-manifest-peers"  // decodeEdit: make([]PeerMeta,0,peersCount) from the wire
+	fManifestFrame = "C16-manifest-frame"  // readEdit: make([]byte,length) from the 4-byte frame header before reading
+	fEntryAlloc    = "C16-entry-alloc"     // DecodeEntryFrom: make([]byte,keyLen/valueLen) from the header before reading
+	fValueStruct   = "C16-valuestruct"     // ValueStruct.DecodeValue: index panic on empty buffer / overflowing varint
 )
 
 // scr is the verdict of a structural pre-screen.
